@@ -164,6 +164,44 @@ DESC = {
  "C19-8": ("the upload round deletes 'empty' records (no session, no traffic)", "the round firing between a connection's GetUser and GetSession: a second record and valve for the user"),
  "C20-7": ("handshake-failure fallback to firefox for every signature but firefox", "BrowserSig=safari and one failed handshake: the retry presents firefox"),
  "C20-8": ("connection goroutines share one transport config (pointer)", "chrome: one connection's handshake fails (legitimate fallback), a sibling that redials presents firefox too"),
+ "C01-9": ("serveSession hoists newStream/localConn/err out of the accept loop; the relay goroutines capture the shared variables", "a second stream accepted before the previous stream's relay goroutines first run: stream k never relayed, stream k+1 relayed twice"),
+ "C01-10": ("RouteTCP wires its unused timeout argument into stream.SetReadFromTimeout", "one-way traffic (download only) for longer than StreamTimeout: both directions of the stream are closed mid-transfer"),
+ "C02-9": ("streamBuffer gets an inOrder fast path that makeStream enables when the session has one connection at that moment", "a stream created with one connection, a second connection added later, frames reordered across the two"),
+ "C02-10": ("a singleplex session closes itself on arrival of a stream-closing frame", "Singleplex over two connections with the closing frame overtaking lower-numbered data: the data is refused"),
+ "C03-9": ("streamBufferedPipe.Read returns n with io.EOF on a short read of a closed pipe; common.Copy checks the read error before writing", "the peer's close processed while the tail is unread: Copy drops the last chunk"),
+ "C03-10": ("Stream.ReadFrom checks isClosed before the blocking read instead of after it", "ReadFrom parked in the local read, the stream closed, then local data: a frame goes out after the closing frame and is counted as written"),
+ "C04-9": ("unordered Write may use the padding reserve once past the padded start; obfs pads frames with Seq <= 5 instead of < 5", "the sixth datagram of an unordered stream longer than limit-269 bytes: encoding exceeds the limit"),
+ "C04-10": ("MakeSession adds 8 bytes to maxStreamUnitWrite for the plain method", "plain method, a full-size frame among the first five with one of the top 8 padding draws: limit+8 bytes on the wire"),
+ "C05-9": ("WebSocketConn.Write sends at most 16480 bytes per message", "a payload of 16481..20480 bytes arrives as two reads"),
+ "C05-10": ("WebSocketConn.Read's loop shadows err; a mid-message failure returns (n, nil)", "connection cut between a frame header and its last payload byte: a truncated message is delivered as complete"),
+ "C06-9": ("CDN client reads the 60-byte reply with one Read of the message reader", "the reply reaching the client in more than one segment: the client aborts although the server admitted it"),
+ "C06-10": ("server finds the Hidden header with a case-sensitive line scan instead of net/http", "a CDN forwarding header names in lower case: the client is treated as a visitor"),
+ "C07-9": ("ecdh.Unmarshal refuses the seven small-order points by byte comparison (top bit not masked) and GenerateSharedSecret drops X25519's error", "a small-order ephemeral key with the top bit set: the all-zero shared secret is accepted"),
+ "C07-10": ("WebSocket unmarshalHidden loses the shared-secret error to a shadowed err", "a small-order ephemeral key over the CDN transport: sealed under the all-zero key it authenticates"),
+ "C09-9": ("readFirstPacket's HTTP branch scans lines through a bufio reader", "bytes read ahead of the request head stay in the bufio reader and never reach the redirection target"),
+ "C09-10": ("Serve sets SO_LINGER 0 on accepted TCP connections", "a large reply from the redirection target to a slow visitor: the close resets the connection and truncates the tail"),
+ "C10-9": ("ServerName lower-cased in ProcessRawConfig and the random keyword compared with ==", "AlternativeNames containing Random/RANDOM picked for a session: the literal keyword is sent as SNI"),
+ "C10-10": ("ServerHello composed in a package-level template slice", "two server handshakes overlapping: a reply carries another connection's session id and key share"),
+ "C11-9": ("TLSConn.Read checks a protocol maximum (18432) instead of the caller's buffer; the session receive buffer shrinks to MsgOnWireSizeLimit", "a record with body length between the limit and 18432: slice bounds panic in the receive loop"),
+ "C11-10": ("WebSocketConn.Read reports a message that exactly fills the buffer as too large", "one binary message of exactly 20480 bytes of garbage: the session is torn down"),
+ "C12-9": ("switchboard.deplex loses its defer conn.Close()", "Session.Close winning against the receive loop on a reset connection (its notice send fails): the reset connection is never closed locally"),
+ "C12-10": ("TLSConn gets a write mutex that Close also takes", "a write parked on a full connection while another connection fails: closeAll blocks behind the parked writer"),
+ "C13-9": ("closeStream takes writingM with TryLock; Stream.Close no longer takes it", "Close arriving while a writer is between header serialisation and Seq++: closing frame and data frame share a sequence number"),
+ "C13-10": ("closeStream skips the closing frame for singleplex sessions", "Singleplex: Stream.Close returns nil with no closing frame on the wire"),
+ "C14-9": ("Stream.ReadFrom defers a Put of its send buffer inside the loop and keeps the explicit Put", "two streams relaying after an earlier ReadFrom returned: both are handed the same buffer"),
+ "C14-10": ("Stream.ReadFrom's read window loses the frame-header offset at its upper end (14 bytes short)", "a datagram of maxStreamUnitWrite-13..maxStreamUnitWrite bytes relayed through ReadFrom is truncated"),
+ "C15-9": ("GetBypassUser replaces a record that holds no session", "two connections of a new bypass (UID, session id) both past GetBypassUser before either's GetSession: two records, two keys"),
+ "C15-10": ("every listener after the first gets its own user panel", "the same user through two listening ports: cap per listener, same session id yields two sessions"),
+ "C16-9": ("GetSession admits without the user's lock across the database lookup; termination no longer marks the record", "an admission overlapping a termination: a session of a terminated user stays live"),
+ "C16-10": ("UploadStatus treats ExpiryTime 0 as no expiry", "a user whose ExpiryTime is 0 (1970) keeps being served after an upload round"),
+ "C17-9": ("commitUpdate holds the table read lock across NumSession; CloseSession removes the record while holding the sessions lock", "the commit step overlapping the user's last session closing: lock cycle, the panel deadlocks"),
+ "C17-10": ("commitUpdate terminates the record it saw at collection time", "last session closes and the user reconnects during a round that answers TERMINATE: the stale record is terminated, the live one survives"),
+ "C18-9": ("admin API wrapped in http.TimeoutHandler", "a database operation slower than 5 s: the administrator gets 503 yet the write lands afterwards"),
+ "C18-10": ("WriteUserInfo merges with the stored record in a separate read transaction", "an upload or another partial update committing between the read and the write is overwritten with stale values"),
+ "C19-9": ("CloseSession no longer marks the record terminated; TerminateActiveUser uses closeAllSessions", "GetUser just before the user's last session ends, GetSession just after: a session on the forgotten record's valve, the next connection gets a second valve"),
+ "C19-10": ("MakeValve gives buckets a capacity of max(rate, 20480)", "a user limited below 20480 B/s gets 20480/rate seconds of burst"),
+ "C20-9": ("ck-client's command-line -i/-l/-p no longer override the configuration file", "LocalHost/LocalPort/RemotePort given both in the file and on the command line"),
+ "C20-10": ("CDN transport takes the TLS server name from CDNOriginHost", "Transport=CDN with CDNOriginHost set: the configured ServerName is not presented"),
 }
 head = subprocess.check_output(["git","-C","/repo","rev-parse","--short","HEAD"]).decode().strip()
 index = []
